@@ -332,6 +332,23 @@ def run_tie(ctx):
     for a, b, basis in edge:
         out = np.array(qi._unitary(np.array([[a], [b]]), basis=basis), dtype=complex)
         sample.append(("lemma2", a, b, basis, out))
+    # basis = 0 (valid and falsy) and 1 in every integer form (Python int / bool, numpy.int64 / int32 / bool_), by keyword and
+    # positionally; the op carries the canonical int.  decompose / cnot_count themselves have no boolean or falsy-valued option
+    # (the falsy shapes m = 0 and n - m = 0 are the 'vector' and 'full unitary' cases of every sweep).
+    for fi, (fname, conv) in enumerate((("int", int), ("bool", bool), ("np.int64", np.int64), ("np.int32", np.int32), ("np.bool_", np.bool_))):
+        for basis in (0, 1):
+            a = complex(ctx.rng.uniform(-1, 1), ctx.rng.uniform(-1, 1))
+            b = complex(ctx.rng.uniform(-1, 1), ctx.rng.uniform(-1, 1))
+            try:
+                arg = np.array([[a], [b]])
+                raw = qi._unitary(arg, basis=conv(basis)) if (fi + basis) % 2 else qi._unitary(arg, conv(basis))
+                out = np.array(raw, dtype=complex)
+            except Exception as e:  # noqa: BLE001  private helper, form not claimed by anything: counted
+                ctx.count(f"flagforms:basis:{fname}:unsupported-{type(e).__name__}")
+                continue
+            sample.append(("lemma2", a, b, basis, out))
+            ctx.count(f"flagforms:basis:{fname}")
+            ctx.count(f"flagforms:basis:{fname}:{basis}:via {'keyword' if (fi + basis) % 2 else 'positional'}")
     for _, a, b, basis, out in sample:
         flat = [v for z in out.ravel() for v in (float(z.real), float(z.imag))]
         ctx.tie({"op": "lemma2", "are": a.real, "aim": a.imag, "bre": b.real, "bim": b.imag, "basis": basis},
